@@ -281,17 +281,27 @@ func (p *grpcConnectionPool) newConnection(ctx context.Context, target *route.Ta
 	conn, err := grpc.DialContext(ctx, target.URL.Host, opts...)
 
 	if err == nil {
-		p.Set(target, conn)
+		conn = p.Set(target, conn)
 	}
 
 	return conn, err
 }
 
-func (p *grpcConnectionPool) Set(target *route.Target, conn *grpc.ClientConn) {
+// Set makes conn the pooled connection for target and returns the connection
+// to use. When another request has pooled a usable connection for the same
+// target in the meantime that one is kept and returned and conn is closed,
+// so that no connection is left behind which the cleanup does not know about.
+func (p *grpcConnectionPool) Set(target *route.Target, conn *grpc.ClientConn) *grpc.ClientConn {
 	p.lock.Lock()
 	defer p.lock.Unlock()
 
-	p.connections[makeGRPCTargetKey(target)] = conn
+	key := makeGRPCTargetKey(target)
+	if cur := p.connections[key]; cur != nil && cur != conn && cur.GetState() != connectivity.Shutdown {
+		conn.Close()
+		return cur
+	}
+	p.connections[key] = conn
+	return conn
 }
 
 func (p *grpcConnectionPool) cleanup() {
